@@ -81,7 +81,7 @@ def gen_lists(rng, tier):
            ["x", "y", None, "z"], [-1, 1], ["-1", "1"], ["1a", "a1"], ["é", "É"], ["ß", "SS"], ["ǅx", "ǆx"], ["ab", "a b", "aB"], ["A_B", "a b"], ["a b", "A_B"],
            ["a", "b", "c"], [3, 2, 1], ["b", "a"], ["B", "a"], ["x", "X y"], ["it's", 'say "hi"'], ["\\", "/"], ['\\"'], ["a\\"], ["a\nb"], ["µm", "Μm"],
            ["VALUE_NEGATIVE_1", "x"], [-1, -2, 0], ["none", "None "], ["a", "b", None, None]]
-    n = 120 if tier == "quick" else 1200
+    n = 120 if tier == "quick" else 2000
     for _ in range(n):
         r = rng.random()
         k = rng.randint(1, 5)
